@@ -318,6 +318,7 @@ fn run_inner(case: &WCase, out: &mut WOutcome)
     let mut app = App::new();
     app.add_plugins(ReactPlugin);
     app.insert_react_resource(RA(0));
+    app.insert_react_resource(crate::universe::RB(0));
     app.add_world_reactor(WD::<0>).add_world_reactor(WD::<1>).add_world_reactor_with(W3, resource_mutation::<RA>());
     app.add_entity_reactor(E1).add_entity_reactor(E2).add_entity_reactor(E3);
     let world = app.world_mut();
